@@ -50,6 +50,7 @@ func LinearAttempt(ctx context.Context, rate time.Duration, count int) <-chan ti
 		return c
 	}
 	go func() {
+		defer verifPoint("attempt.exit", c, 0)
 		defer close(c)
 		ticker := time.NewTicker(rate)
 		defer ticker.Stop()
@@ -57,18 +58,24 @@ func LinearAttempt(ctx context.Context, rate time.Duration, count int) <-chan ti
 			var t time.Time
 			select {
 			case <-ctx.Done():
+				verifPoint("attempt.ctxdone", c, i)
 				return
 			case t = <-ticker.C:
+				verifPoint("attempt.tick", c, i)
 			}
 			if ctx.Err() != nil {
 				// guarantee at most one tick after context cancel
+				verifPoint("attempt.recheck.cancelled", c, i)
 				return
 			}
+			verifPoint("attempt.recheck.ok", c, i)
 			select {
 			case c <- t:
 				i++
+				verifPoint("attempt.sent", c, i)
 			default:
 				// slow consumer, retry send next tick
+				verifPoint("attempt.full", c, i)
 			}
 		}
 	}()
